@@ -257,7 +257,9 @@ fn hot_chain(mode: Mode, depth: usize, k: usize, binary: bool) {
 
 /// `last_binary`: the last stage is always a two-input operator (a third party can end the stream)
 fn hot_chain_x(mode: Mode, depth: usize, k: usize, binary: bool, last_binary: bool) {
-  let unary = all_unary_ops();
+  // a Subject used as observer (publish + connect) is a multicast boundary: it reports finished when *it* has
+  // terminated, not when its present subscribers have, so the forwarding obligation of C16 ends there
+  let unary: Vec<Op> = all_unary_ops().into_iter().filter(|o| !(mode == Mode::Finished && *o == Op::Relay)).collect();
   let mut stages: Vec<Stage> = vec![];
   let mut tags: Vec<usize> = vec![0];
   for i in 0..depth {
@@ -824,7 +826,7 @@ pub fn harnesses() -> Vec<HarnessDef> {
   add("c16_finished", vec!["C16"], "forwarding obligation: once the subscriber has terminated, every hot producer handle (main and notifier positions) sees is_finished() == true",
     |t| format!("depth {}; {} events", if t { 2 } else { 1 }, 4),
     Box::new(|t| hot_chain(Mode::Finished, if t { 2 } else { 1 }, 4, true)), 600_000, 40_000_000, true);
-  add("c16_finished_d2", vec!["C16"], "forwarding obligation through two stages where the second is a two-input operator (a notifier or sibling input can end the stream before the first stage has seen an item)", |_| "depth 2 (any stage, then a two-input stage); 4 events".to_string(), Box::new(|_| hot_chain_x(Mode::Finished, 2, 4, true, true)), 700_000, 40_000_000, true);
+  add("c16_finished_d2", vec!["C16"], "forwarding obligation through two stages where the second is a two-input operator (a notifier or sibling input can end the stream before the first stage has seen an item)", |t| format!("depth 2 (any stage, then a two-input stage); {} events", if t { 4 } else { 3 }), Box::new(|t| hot_chain_x(Mode::Finished, 2, if t { 4 } else { 3 }, true, true)), 6_000_000, 40_000_000, true);
   add("c13_chain", vec!["C13"], "cold chains: nothing runs at build time; three subscriptions of clones (sequential and nested) each reproduce the oracle; source runs once per subscription",
     |t| format!("depth {}; scripts of <= {} items", if t { 2 } else { 1 }, if t { 3 } else { 3 }),
     Box::new(|t| c13_chain(if t { 2 } else { 1 }, 3)), 400_000, 20_000_000, true);
